@@ -369,6 +369,7 @@ def configs_special():
     for shape in ("closed", "expanded"):
         for dest in ("base", "local"):
             yield {"scenario": "special", "shape": shape, "src": "complete", "dest0": "empty", "dest": dest, "verify": False}
+            yield {"scenario": "oddkeys", "shape": shape, "src": "complete", "dest0": "empty", "dest": dest, "verify": False}
             yield {"scenario": "twins", "shape": shape, "src": "complete", "dest0": "empty", "dest": dest, "verify": True}
             yield {"scenario": "twins", "shape": shape, "src": "complete", "dest0": "partial", "dest": dest, "verify": True}
 
